@@ -79,9 +79,9 @@ fn bool_into_value(b: bool) -> (r: KValue) ensures r == KValue::Bool(b) { unimpl
         r is Ok,
         final(self).reader.ip == (if Self::falsy(old(self).reg(register)) { old(self).reader.ip as int } else { old(self).reader.ip + offset }),   // @jumps_exactly_for_truthy_values
 """),
-        # ASSUMED (external_body): the guarded arm `KValue::Bool(b) if !b => self.jump_ip(offset)` mutates self
-        # and is followed by `_ => {}`: Verus 0.2026.09.13 loses the state of `self` there (DESIGN 11.1)
-        Fn(VM, "impl KotoVm :: fn run_jump_if_false", props=P, external_body=True, spec=r"""
+        # rule R10: `KValue::Bool(b) if !b => self.jump_ip(offset), _ => {}` is desugared to an if/else
+        # inside the arm (Verus loses the state after a guarded arm that mutates self, DESIGN 11.1)
+        Fn(VM, "impl KotoVm :: fn run_jump_if_false", props=P, final_guards=1, spec=r"""
     requires old(self).reader.ip + offset <= usize::MAX,
     ensures
         r is Ok,
